@@ -607,7 +607,15 @@ def verify(spec, registry=None, max_paths=400, only_clauses=None, only_cfg=None)
                     for cname, cexpr in spec.get("ensures", []):
                         if only_clauses and cname not in only_clauses:
                             continue
-                        g = eval_spec(I, cexpr, post_env, mod)
+                        try:
+                            g = eval_spec(I, cexpr, post_env, mod)
+                        except PyRaise as pe:
+                            # the postcondition cannot even be evaluated on this path (missing key / attribute ...): it does not hold
+                            ctx.oblige(f"{base}/{cname}", False, {"clause": cname, "kind": "ensures", "msg": f"postcondition raised {pe}"})
+                            continue
+                        except Unsupported as u:
+                            vcs.append(dict(name=f"{base}/{cname}/unsupported{tag}", unsupported=str(u), cfg=describe_cfg(cfg)))
+                            continue
                         ctx.oblige(f"{base}/{cname}", g, {"clause": cname, "kind": "ensures"})
                     for exc, cond in raises.items():
                         c = eval_spec(I, cond, post_env, mod)
